@@ -33,6 +33,9 @@ type wire struct {
 	payload []byte
 }
 
+// waitQueue as the code of a wire element: wait for one pass of the orphan queue timer
+const waitQueue = 0xffff0001
+
 func frameLen(payload int) int { return 6 + (payload+4+16)/16*16 }
 
 var sampleCache []sample
@@ -114,7 +117,9 @@ func playMsgs(m *meter, msgs []wire, opt playOpt) string {
 	fp, np := c.addPeer(pk)
 	input := 0
 	for _, w := range msgs {
-		input += frameLen(len(w.payload))
+		if w.code != waitQueue {
+			input += frameLen(len(w.payload))
+		}
 	}
 	if opt.inputLen > 0 {
 		input = opt.inputLen
@@ -132,6 +137,12 @@ func playMsgs(m *meter, msgs []wire, opt playOpt) string {
 	m.begin()
 	dropped := false
 	for _, w := range msgs {
+		if w.code == waitQueue {
+			// not a message: the manager's 500 ms timer looks through the orphan cache
+			c.waitStep(m, network.VerifC15QueueTimerSignal)
+			drain()
+			continue
+		}
 		err := c.deliver(m, w, np)
 		if c.failed() {
 			break
